@@ -61,7 +61,7 @@ func runC06(w *World) {
 		prev := hc.lm.onEntry
 		hc.lm.onEntry = func(e *lmEntry, before, after *Model) {
 			prev(e, before, after)
-			if c := lower(e.args[0]); (c == "rename" || c == "renamenx") && inst().srv.shrinking && len(e.args) == 3 {
+			if c := lower(e.args[0]); (c == "rename" || c == "renamenx") && len(e.args) == 3 && (inst().srv.shrinking || renamed[e.args[1]] || renamed[e.args[2]]) {
 				renamed[e.args[1]] = true
 				renamed[e.args[2]] = true
 			}
@@ -79,6 +79,9 @@ func runC06(w *World) {
 	big := w.knob("big", 4) == 0
 	nc := 1 + w.knob("clients", 2)
 	per := []int{8, 16, 30}[w.knob("per", 3)]
+	if w.deep() && w.knob("deep", 3) == 0 {
+		per = 70
+	}
 	var clients []*Actor
 	for i := 0; i < nc; i++ {
 		i := i
@@ -283,6 +286,9 @@ func runC06(w *World) {
 
 	// faults
 	nfaults := w.knob("nfaults", 4)
+	if w.deep() {
+		nfaults += w.knob("morefaults", 6)
+	}
 	leaderCrashes := w.knob("leadercrash", 3) / 2 // one run in three may crash the leader once
 	var pendingRestart bool
 	w.faults = append(w.faults, func() []action {
